@@ -96,6 +96,9 @@ def unicode_display_len(text: str) -> int:
     assert isinstance(text, str), repr(text)
 
     def uwidth(c: str) -> int:
+        if unicodedata.category(c) in {'Mn', 'Me'}:
+            # combining marks are drawn over the previous character
+            return 0
         status = unicodedata.east_asian_width(c)
         return 1 + int(status in {'W', 'F'})
 
